@@ -2,6 +2,9 @@ import CV.Proofs.Bits
 /-!
 # Export formats, re-import, guards and the queue decoder
 -/
+set_option linter.unusedSimpArgs false
+set_option linter.unusedVariables false
+set_option linter.unnecessarySimpa false
 namespace CV.Bits
 
 theorem lowBits_of_lt {k x : Nat} (hx : x < 2^k) (d : Nat) :
